@@ -1780,7 +1780,9 @@ class NumericMixin(MonadMixin):
         sql = monad.getsql()[0]
         if not (translator.dialect == 'PostgreSQL' and monad.type is bool):
             sql = [ 'NE', sql, [ 'VALUE', 0 ] ]
-        return BoolExprMonad(sql, nullable=False)
+        result = BoolExprMonad(sql, nullable=False)
+        result.aggregated = getattr(monad, 'aggregated', False)
+        return result
     def negate(monad):
         sql = monad.getsql()[0]
         translator = monad.translator
@@ -1793,7 +1795,9 @@ class NumericMixin(MonadMixin):
                 result_sql = [ 'NOT', [ 'COALESCE', sql, [ 'VALUE', True ] ] ]
             else:
                 result_sql = [ 'EQ', [ 'COALESCE', sql, [ 'VALUE', 0 ] ], [ 'VALUE', 0 ] ]
-        return BoolExprMonad(result_sql, nullable=False)
+        result = BoolExprMonad(result_sql, nullable=False)
+        result.aggregated = getattr(monad, 'aggregated', False)
+        return result
 
 def numeric_attr_factory(name):
     def attr_func(monad):
